@@ -56,11 +56,16 @@ fn entry(id: u64) -> GsEntry {
 }
 
 type AnyHandle = Box<dyn Any + Send + Sync>;
+/// payload that makes the handle passed to `attach` 256 KiB large
+#[allow(dead_code)]
+struct Big([u8; 256 * 1024]);
 
 /// The operations of one `global_entry_sink!` type, as plain function pointers.
 struct GOps {
     name: &'static str,
     attach: fn(BoxEntrySink, AnyHandle) -> AttachHandle,
+    /// attach with a large by-value handle (boxing it inside `attach` takes a while)
+    attach_big: fn(BoxEntrySink, (AnyHandle, Big)) -> AttachHandle,
     try_append: fn(GsEntry) -> Result<(), GsEntry>,
     try_append_num: fn(NumEntry) -> Result<(), NumEntry>,
     append: fn(GsEntry),
@@ -78,6 +83,7 @@ macro_rules! globals {
             $( GOps {
                 name: stringify!($name),
                 attach: |s, h| <$name as AttachGlobalEntrySink>::attach((s, h)),
+                attach_big: |s, h| <$name as AttachGlobalEntrySink>::attach((s, h)),
                 try_append: |e| <$name as AttachGlobalEntrySink>::try_append(e),
                 try_append_num: |e| <$name as AttachGlobalEntrySink>::try_append(e),
                 append: |e| <$name as GlobalEntrySink>::append(e),
@@ -963,6 +969,9 @@ struct Ctl {
     /// the scope owning the attach handle is left by a panic (caught) instead of normally
     #[serde(default)]
     unwind: bool,
+    /// pass a large handle value to attach
+    #[serde(default)]
+    big: bool,
 }
 
 #[derive(serde::Deserialize, Clone, Debug)]
@@ -1105,7 +1114,12 @@ fn run_race(sc: &Race, type_idx: &mut usize) {
             std::thread::sleep(Duration::from_micros(c.delay_us));
             let s = c.sink as i64;
             trace::evi("AttachStart", &[("s", s)]);
-            let r = util::catch(|| (g.attach)(q, Box::new(h)));
+            let r = if c.big {
+                let big = (Box::new(h) as AnyHandle, Big([7u8; 256 * 1024]));
+                util::catch(|| (g.attach_big)(q, big))
+            } else {
+                util::catch(|| (g.attach)(q, Box::new(h)))
+            };
             match r {
                 Err(_) => {
                     trace::evi("AttachEnd", &[("s", s), ("ok", 0)]);
